@@ -25,6 +25,26 @@ Theorem C19_frame : forall (St L : Type) (learned : St -> L) (step : St -> optio
 Proof. exact MonitorProofs.monitor_frame. Qed.
 Print Assumptions C19_frame.
 
+(* any two monitoring configurations that respect the frame give the same learned state and the same training history:
+   the outcome is constant over the whole product of monitoring options *)
+Theorem C19_frame_pair : forall (St L : Type) (learned : St -> L) (step : St -> option (St * option Qc))
+    (mon1 mon2 : St -> St),
+  (forall s, learned (mon1 s) = learned s) ->
+  (forall s, learned (mon2 s) = learned s) ->
+  (forall s1 s2, learned s1 = learned s2 ->
+     match step s1, step s2 with
+     | None, None => True
+     | Some (a, e1), Some (b, e2) => learned a = learned b /\ e1 = e2
+     | _, _ => False
+     end) ->
+  forall tol fuel level max_iter s hist,
+  learned (fst (fit_monitored St step mon1 tol fuel level max_iter s hist)) =
+  learned (fst (fit_monitored St step mon2 tol fuel level max_iter s hist)) /\
+  snd (fit_monitored St step mon1 tol fuel level max_iter s hist) =
+  snd (fit_monitored St step mon2 tol fuel level max_iter s hist).
+Proof. exact MonitorProofs.monitor_frame_pair. Qed.
+Print Assumptions C19_frame_pair.
+
 (* the first hypothesis is necessary: a monitoring branch that touches the learned state (for instance by drawing from
    the global random stream) changes the outcome *)
 Theorem C19_frame_needs_hypothesis :
